@@ -24,6 +24,10 @@ CHECKS = {
  "C14": dict(cat="model_checking", tech="exhaustive enumeration of path lists (all orders/groupings) against a reference trie, plus all strings <=6 (7) over a 13-symbol alphabet and a depth-2 JSON document grammar, on the real fieldmask library",
    text="(a) every list of <=2 (thorough: also triples) valid paths over three descriptors (struct/list/set/string-map/int-map/other-map fields, ids 63/64/65 and a negative id), white and black, every permutation and a regrouping: NewFieldMask must succeed for clean lists, every type-appropriate query to depth 4 must equal the reference trie, answers must not depend on order/grouping, JSON round trip must preserve every answer and JSON text must be stable; (b) 5.2M (thorough 68M) arbitrary strings through NewFieldMask/GetPath/PathInMask: no panic; (c) ~80k JSON documents with wrong-typed/missing members through UnmarshalJSON/Unmarshal and follow-up use: no panic.",
    note="Lists mixing '*' with a specific child (or a path end) at one position are only checked for panics (the property exempts them from order independence). '.*' with a continuation on a struct and by-id spelling of negative ids are outside the valid-path grammar. JSON stability across map-iteration orders is part of C07's engine, not of this check.", ref="§3 C14, App. A.2"),
+
+ "C02": dict(cat="exploration", tech="bounded-exhaustive generate-compile-run: every field shape x requiredness x small total value domain, executed on the real generated Read/Write and compared with an independent schema-driven binary codec; exhaustive single-field perturbations",
+   text="The type-kernel program (one struct per leaf class / container-of-leaf / container-in-container shape x {default, required, optional}, declared defaults of every base type, union, exception, recursive struct, synthesized args/result of 9 methods; 435 roots quick) is generated by the thriftgo built from the working tree under the default configuration and 7 (thorough 35) presentation-only option sets, compiled, and driven through a reflection driver: for every value of each root's domain (25k vectors) Write's bytes must be well-formed and decode under the reference codec to the value, Read of the reference encoding must yield the value on fields, getters, IsSet and struct tags, options must not change a byte; every unknown-field insertion (11 wire types x every position), every retagging, deletion of the field and field reordering is applied to the reference encodings; unions with 0/2 members must be refused.",
+   note="Trusted: internal/refsem codec (written from the protocol specification), the reflection driver, apache/thrift v0.13.0 TBinaryProtocol. A configuration whose generated code does not compile only costs coverage here (it is C01's subject).", ref="§3 C02"),
 }
 NA = {}
 def main():
